@@ -530,11 +530,16 @@ def _enforce_bounds_vector(u, du, alpha, lower_bounds, upper_bounds):
             if max_d_alpha > d_alpha:
                 d_alpha = max_d_alpha
 
+    if d_alpha > alpha:
+        # In exact arithmetic d_alpha <= alpha because the original point was valid, but an entry
+        # that sits on its bound with a round-off sized step can give a ratio slightly (or much)
+        # larger than alpha, which would reverse the whole step.  Backtrack to the start at most.
+        d_alpha = alpha
+
     if d_alpha > 0:
         # d_alpha will not be negative because it was initialized to be 0
         # and we've only done max operations.
-        # d_alpha will not be greater than alpha because the assumption is that
-        # the original point was valid - i.e., no bounds were violated.
+        # d_alpha is not greater than alpha (see above).
         # Therefore 0 <= d_alpha <= alpha.
 
         # We first update u to reflect the required change to du.
